@@ -80,6 +80,7 @@ For EACH mutant (a, b):
                     to manifest, the commands you ran and their outcomes)
  5. Restore the clean tree (`git -C {wt} checkout -- .`) - leave _seed/ in place (it is untracked).
 
-Do not commit anything. Do not install anything (there is no network). When done, reply with a short summary
+Do not commit anything and do NOT use `git stash` (the stash is shared by all worktrees of this repository and other people work
+in sibling worktrees; use `git diff > file`, `git checkout -- .` and `git apply file` instead). Do not install anything (there is no network). When done, reply with a short summary
 of both mutants (file/line changed, what manifests it) and confirm the test-suite + demo outcomes you observed.
 """)
